@@ -63,6 +63,11 @@ def gen_cases(ctx):
                "filter": rng.choice([None, "default", {"names": ["dominated_operations"], "form": "function"},
                                      {"names": ["non_idle_machines"], "form": "function"}]),
                "padding": rng.random() < 0.85, "seed": rng.randrange(2**31),
+               # some feature observers are asked for a subset of their feature types only
+               "restrict_feature_types": rng.choice([None, None, {"is_completed": ["jobs"]},
+                                                     {"is_completed": ["machines"]},
+                                                     {"remaining_operations": ["jobs"]},
+                                                     {"is_scheduled": ["operations"], "duration": ["jobs", "machines"]}]),
                # the user may have removed a non-operation node (source, a machine node, ...)
                # from the graph before handing it to the environment
                "prune": rng.choice([0, 0, 0, 1, 2, 5])}
@@ -117,7 +122,11 @@ def configs(case):
     from job_shop_lib.dispatching.feature_observers import FeatureObserverType
     from job_shop_lib.graphs.graph_updaters import ResidualGraphUpdater
     from job_shop_lib.reinforcement_learning import IdleTimeReward, MakespanReward
-    feats = [DispatcherObserverConfig(FeatureObserverType(t) if k % 2 else t)
+    from job_shop_lib.dispatching.feature_observers import FeatureType
+    restrict = case.get("restrict_feature_types") or {}
+    feats = [DispatcherObserverConfig(FeatureObserverType(t) if k % 2 else t,
+                                      kwargs=({"feature_types": [FeatureType(x) for x in restrict[t]]}
+                                              if t in restrict else {}))
              for k, t in enumerate(case["features"])]
     rw = DispatcherObserverConfig(MakespanReward if case["reward"] == "makespan" else IdleTimeReward)
     up = DispatcherObserverConfig(ResidualGraphUpdater, kwargs=dict(case["updater_opts"]))
@@ -214,6 +223,15 @@ def episode(ctx, env, inner_of, rng, where, padding, first_obs):
         between = getattr(env, "_jsv_between_steps", None)
         if between is not None:
             between()
+        if getattr(env, "_jsv_direct_dispatch", False) and rng.random() < 0.25 and N - steps >= 2:
+            # an operation dispatched directly on the environment's dispatcher (warm start by a rule
+            # solver, look-ahead ...): the observation asked for afterwards shows the current graph
+            op0 = rng.choice(inner.dispatcher.available_operations())
+            inner.dispatcher.dispatch(op0, rng.choice(op0.machines))
+            steps += 1
+            ctx.count("direct_dispatches_then_get_observation")
+            check_obs(ctx, env, inner, inner.get_observation() if env is inner else env.single_job_shop_graph_env.get_observation(),
+                      inner.observation_space, f"{where} after a direct dispatch", check_membership=padding)
         op = rng.choice(inner.dispatcher.available_operations())
         m = rng.choice(op.machines)
         act = (op.job_id, m if len(op.machines) > 1 or rng.random() < 0.6 else -1)
@@ -267,6 +285,7 @@ def run_single(ctx, case):
                 op9 = rng.choice(sib.dispatcher.available_operations())
                 sib.step((op9.job_id, rng.choice(op9.machines)))
         env._jsv_between_steps = sibling_steps
+    env._jsv_direct_dispatch = case["seed"] % 4 == 2
     for ep in range(3):
         obs, info = env.reset()
         if info != {}:
@@ -363,6 +382,13 @@ def run_multi(ctx, case):
         if str(env.observation_space) != space0:
             ctx.violation("c18_multi_env_space_changed", {})
         try:
+            if case["seed"] % 5 == 3 and ep == 0:
+                # this episode is played by a rule solver that is handed the env's dispatcher; the
+                # following episodes are still built with the constructor's configuration
+                from job_shop_lib.dispatching.rules import DispatchingRuleSolver
+                DispatchingRuleSolver("most_work_remaining").solve(inner.dispatcher.instance, inner.dispatcher)
+                ctx.count("multi_env_episodes_played_by_a_rule_solver")
+                continue
             if not episode(ctx, env, lambda: env.single_job_shop_graph_env, rng, f"multi ep{ep}", pad, obs):
                 break
         except ValidationError as e:
